@@ -184,7 +184,10 @@ def run(tier):
     rep.cov["schedules"] = sched
     depth = 8 if tier == "thorough" else 5
     ms = models(tier)
-    tot = monitors.run_models(rep, [m for m in ms if not m.name.startswith("lost-peer-while")], depth, dedup_depth_plain=depth - 3, time_cap=1800 if tier == "thorough" else 110)
+    tot = monitors.run_models(rep, [m for m in ms if not m.name.startswith(("lost-peer-while", "three-persistent"))], depth, dedup_depth_plain=depth - 3, time_cap=1800 if tier == "thorough" else 110)
+    # (a pass of its own, so that its depth does not depend on how much of the shared time budget the larger models have used)
+    t0_ = monitors.run_models(rep, [m for m in ms if m.name.startswith("three-persistent")], 7 if tier == "thorough" else 5, time_cap=600 if tier == "thorough" else 90)
+    monitors.merge_tot(tot, t0_)
     # small alphabet, needs a horizon of several wake-up intervals
     nflood = 0
     for cnt, vsf in common.pmap(flood_case, [(n, pol, y) for n in (12, 50, 700) for pol in (False, True) for y in (False, True)], chunksize=1):
